@@ -440,8 +440,10 @@ def rule_products(rep, pdb):
                 shape = same_dim(pdb, ctx, c, F(obj, "rows"), ROWS) and same_dim(pdb, ctx, c, F(obj, "cols"), F(P(1), "cols"))
                 tail = strip(fn["body"].get("expr")) if fn["body"].get("expr") else None
                 ret = tail is not None and ctx.term(tail) == obj
-                ok = args[1] == colv and good_inner and good_rng and shape and ret
-                det = "same col=%s inner=%s range 0..cols(rhs)=%s shape rows(self) x cols(rhs)=%s returns result=%s" % (args[1] == colv, good_inner, good_rng, shape, ret)
+                # every column is computed: the store is not under a condition inside the loop (`skip columns that sum to zero` drops 1,-1 columns)
+                uncond = not [a for a in _anc(c) if a.get("k") in ("If", "Match") and any(z is loops[0] for z in _anc(a))]
+                ok = args[1] == colv and good_inner and good_rng and shape and ret and uncond
+                det = "same col=%s inner=%s range 0..cols(rhs)=%s shape rows(self) x cols(rhs)=%s returns result=%s unconditional=%s" % (args[1] == colv, good_inner, good_rng, shape, ret, uncond)
         rep.add("product/matmul", rule, ok, fn["body"], det, where=loc(fn["body"]))
 
 
@@ -544,6 +546,9 @@ def rule_editing(rep, pdb):
         det += "; square: strict upper triangle exchange (i,j)<->(j,i)=%s" % oks
         ok = okn and oks
         rep.add("edit/transpose_in_place", rule, ok, fn["body"], det, where=loc(fn["body"]))
+        rets_ = [x for x in walk(fn["body"]) if x.get("k") == "Ret"]
+        rep.add("edit/transpose_in_place/every-path", "transpose_in_place has no early return: also a 0 x n matrix (no entries at all) must come out as n x 0 - the shape is exchanged on every path",
+                not rets_, rets_[0] if rets_ else fn["body"], "early returns: %d" % len(rets_))
     # transpose = clone + transpose_in_place
     rule = "transpose returns a clone of self transposed in place"
     fn = _need(rep, pdb, "%s::transpose" % M, "edit/transpose", rule)
